@@ -1048,7 +1048,18 @@ class FlowIRExperimentConfiguration:
         # VV: Validate after replicating because of `replica` variables
         try:
             if (self._concrete != FlowIRExperimentConfiguration._NoFlowIR) or (len(out_errors) == 0):
-                out_errors.extend(self._concrete.validate(top_level_folders=self.top_level_folders))
+                errors = []
+                if self._is_primitive is False and self._unreplicated != FlowIRExperimentConfiguration._NoFlowIR:
+                    # VV: The replicated FlowIR is built out of the flattened instance of the active platform, which
+                    # only contains known fields. Check the structure of the original document (top-level fields,
+                    # variables, blueprints, environments, etc) here because it is no longer visible after replication
+                    document = self._unreplicated.raw()
+                    document[experiment.model.frontends.flowir.FlowIR.FieldComponents] = []
+                    errors.extend(experiment.model.frontends.flowir.FlowIR.validate(document, {}))
+                known = set(str(e) for e in errors)
+                errors.extend(e for e in self._concrete.validate(top_level_folders=self.top_level_folders)
+                              if str(e) not in known)
+                out_errors.extend(errors)
         except Exception as e:
             self.log.debug(f"Unexpected error while validating {e} -- traceback:\n{traceback.format_exc()}")
             out_errors.append(e)
